@@ -53,6 +53,9 @@ const (
 	relocationState
 	systemState
 	remoteState
+	// passivationUserPausedState: the user paused passivation with PausePassivation
+	// and has not resumed it; survives a suspend/reinstate cycle.
+	passivationUserPausedState
 )
 
 func (pid *PID) isStateSet(state pidState) bool {
